@@ -505,7 +505,7 @@ _names = ['a', 'b', 'c', 'd', 'e']
 def program_recipes(draw, max_funcs=4, max_stmts=6, allow_threads=True, allow_gens=True, allow_raise=True,
                     allow_methods=True, n_values=0, two_files=True, max_depth=2, hold_bias=1):
     nfiles = draw(st.integers(1, 2)) if two_files else 1
-    layout = draw(st.sampled_from(['same_base', 'same_base', 'other', 'other', 'suffix', 'prefix'])) if nfiles == 2 else None
+    layout = draw(st.sampled_from(['same_base', 'same_base', 'other', 'other', 'suffix', 'prefix', 'recur'])) if nfiles == 2 else None
     if nfiles == 1:
         files = [{'path': '/app/pkg/mod_a.py', 'src': True}]
     elif layout == 'same_base':
@@ -513,6 +513,9 @@ def program_recipes(draw, max_funcs=4, max_stmts=6, allow_threads=True, allow_ge
     elif layout == 'suffix':
         # one file name ends with the other
         files = [{'path': '/app/pkg/mod_a.py', 'src': True}, {'path': '/app/pkg/xmod_a.py', 'src': True}]
+    elif layout == 'recur':
+        # the application root (and the package prefix) occur a second time further down the path
+        files = [{'path': '/app/pkg/mod_a.py', 'src': True}, {'path': '/app/pkg/sub/app/pkg/mod_c.py', 'src': True}]
     elif layout == 'prefix':
         # one file name starts with the other
         files = [{'path': '/app/pkg/mod_a.py', 'src': True}, {'path': '/app/pkg/mod_a.pyx.py', 'src': True}]
@@ -756,7 +759,8 @@ def chain_programs(draw, n_values=6, max_depth=5):
     two = draw(st.booleans())
     files = [{'path': '/app/pkg/mod_a.py', 'src': True}]
     if two:
-        files.append({'path': draw(st.sampled_from(['/app/lib/mod_b.py', '/app/other/mod_a.py', '/app/pkg/xmod_a.py'])),
+        files.append({'path': draw(st.sampled_from(['/app/lib/mod_b.py', '/app/other/mod_a.py', '/app/pkg/xmod_a.py',
+                                                      '/app/pkg/sub/app/pkg/mod_c.py'])),
                       'src': True})
     funcs = []
     sid = 0
